@@ -35,6 +35,16 @@ class SchedReader(AudioReader):
         if getattr(self, "vf_fault_at", None) is not None and self.vf_reads_started == self.vf_fault_at:
             self.vf_fault_raised = True
             raise OSError("injected source fault")  # a device error in the middle of the stream
+        victim = getattr(self, "vf_victim", None)
+        if victim is not None:
+            # how many blocks were read since the writer thread last ran (its backlog, whatever it keeps it in)
+            st = victim()
+            if st is not None:
+                if st.steps == getattr(self, "vf_victim_steps", -1):
+                    self.vf_idle_reads = getattr(self, "vf_idle_reads", 0) + 1
+                    self.vf_max_idle_reads = max(getattr(self, "vf_max_idle_reads", 0), self.vf_idle_reads)
+                else:
+                    self.vf_victim_steps, self.vf_idle_reads = st.steps, 0
         data = AudioReader.read(self)
         self.vf_blocks.append(data)
         s.yield_point("read-end")
